@@ -106,6 +106,9 @@ structure RS where
   ancestors : List Anc := []
   uifStack : List (List String) := []
   octx : OCtx := {}
+  /-- `SingleFieldSubscriptionsChecker._fragments` (last definition of a name wins) and the bound for the collection -/
+  sfsFrags : AL (List Sel) := []
+  sfsFuel : Nat := 0
   deriving Inhabited
 
 def RS.err (r : Rule) (s : RS) : RS := { s with errs := r :: s.errs }
@@ -115,6 +118,42 @@ def RS.errN (r : Rule) (n : Nat) (s : RS) : RS := { s with errs := List.replicat
 def dupCount : List String → List String → Nat
   | _, [] => 0
   | seen, x :: xs => (if seen.contains x then 1 else 0) + dupCount (x :: seen) xs
+
+/-! ### SingleFieldSubscriptionsChecker: `CollectFields` restricted to response keys (proposed_fixes/C06-H6) -/
+
+mutual
+def selSize : Sel → Nat
+  | .field _ _ _ _ _ _ sub => selsSize sub + 1
+  | .spread _ _ => 1
+  | .inline _ _ _ sub => selsSize sub + 1
+def selsSize : List Sel → Nat
+  | [] => 0
+  | x :: xs => selSize x + selsSize xs
+end
+
+/-- `_response_keys` as a work list: inline fragments and (once each) named fragments are opened, fields with the same
+    response key are one entry. `fuel` bounds the number of selections processed (every fragment is opened once) -/
+def rootKeysGo (frs : AL (List Sel)) : Nat → List Sel → List String → List String → List String
+  | 0, _, ks, _ => ks
+  | _ + 1, [], ks, _ => ks
+  | f + 1, .field alias name _ _ _ _ _ :: rest, ks, vis =>
+    let k := match alias with | some a => a | none => name
+    rootKeysGo frs f rest (if ks.contains k then ks else ks ++ [k]) vis
+  | f + 1, .inline _ _ _ sub :: rest, ks, vis => rootKeysGo frs f (sub ++ rest) ks vis
+  | f + 1, .spread name _ :: rest, ks, vis =>
+    if vis.contains name then rootKeysGo frs f rest ks vis
+    else match AL.get? frs name with
+      | some sels => rootKeysGo frs f (sels ++ rest) ks (name :: vis)
+      | none => rootKeysGo frs f rest ks (name :: vis)
+
+/-- the fragment table and the bound of a document -/
+def sfsTable (d : Doc) : AL (List Sel) :=
+  d.defs.foldl (fun m x => match x with | .frag n _ _ _ sels => AL.set m n sels | _ => m) []
+def sfsBound (d : Doc) : Nat :=
+  d.defs.foldl (fun n x => match x with | .frag _ _ _ _ sels => n + selsSize sels + 1 | .op _ _ _ _ _ sels => n + selsSize sels + 1 | _ => n) 1
+
+/-- the response keys of the root selection set of an operation of `d` -/
+def rootKeys (frs : AL (List Sel)) (fuel : Nat) (sels : List Sel) : List String := rootKeysGo frs fuel sels [] []
 
 def fragDefs (d : Doc) : List (String × String × Nat × List Sel) :=
   d.defs.filterMap fun | .frag n on _ id sels => some (n, on, id, sels) | _ => none
@@ -219,8 +258,9 @@ def enterRule (s : SchemaD) (fx : Fixes) (r : Rule) (n : Node) (ti : TI) (st : R
     let ops := d.defs.filter (·.isOp)
     let anon := ops.any (·.isAnonOp)
     if anon && ops.length > 1 then (st.err r, true) else (st, false)
+  | singleFieldSubscriptions, .document d => ({ st with sfsFrags := sfsTable d, sfsFuel := sfsBound d }, false)
   | singleFieldSubscriptions, .operation kind _ _ _ sels =>
-    (if kind == "subscription" && sels.length != 1 then st.err r else st, false)
+    (if kind == "subscription" && (rootKeys st.sfsFrags st.sfsFuel sels).length != 1 then st.err r else st, false)
   | knownTypeNames, .typeNode t => (if (typeFromAst s t).isNone then st.err r else st, false)
   | fragmentsOnCompositeTypes, .inline (some on) _ =>
     -- unknown type: `isComposite` is false; reported ("Unknown type") and skipped as well
